@@ -77,6 +77,37 @@ Theorem C14_retransmit_prefix : forall ts t0 ids j0 js T fuel n,
 Proof. exact retransmit_prefix. Qed.
 Print Assumptions C14_retransmit_prefix.
 
+(* Fault: Bind.Send returns an error for a retransmission.  It is an attempt all
+   the same (lastSentHandshake, attempt counter and the retransmit timer are set
+   as for a transmitted one): the next initiation follows 5 s + jitter after it. *)
+Theorem C14_retransmit_after_send_error : forall ts t0 ids j0 j1 js T fuel,
+  RekeyTimeout + sec <= ts -> ts <= t0 -> jit_ok j0 -> jit_ok j1 ->
+  let r1 := step (started 0 ts) (mkev t0 (ITun ids) j0) in
+  let d1 := t0 + RekeyTimeout + ms * fst j0 in
+  let r2 := step (fst r1) (mkev d1 (IFail (IFire TRetransmit)) j1) in
+  let d2 := d1 + RekeyTimeout + ms * fst j1 in
+  d2 <= T -> T < d2 + RekeyTimeout -> (2 <= fuel)%nat ->
+  snd r1 = [OInit] /\ snd r2 = [OErr 0] /\ snd (idle fuel js T (fst r2)) = [(d2, OInit)].
+Proof. exact retransmit_after_send_error. Qed.
+Print Assumptions C14_retransmit_after_send_error.
+
+(* Restart (device Down, then Up at t'), whatever happened before and however
+   recently a handshake message was sent: Start back-dates lastSentHandshake, so
+   the 5 s rate limit does not hold the restarted peer back.  With a persistent
+   keepalive it initiates at once; without, the first TUN batch does. *)
+Theorem C14_restart_with_persistent_keepalive_initiates : forall s t t' j j',
+  0 < pka s -> RekeyTimeout + sec <= t' ->
+  snd (step (fst (step s (mkev t IStop j))) (mkev t' IStart j')) = [OInit].
+Proof. exact restart_with_persistent_keepalive_initiates. Qed.
+Print Assumptions C14_restart_with_persistent_keepalive_initiates.
+
+Theorem C14_restart_then_traffic_initiates : forall s t t' t'' j j' j'' ids,
+  pka s = 0 -> RekeyTimeout + sec <= t' -> t' <= t'' ->
+  let r2 := step (fst (step s (mkev t IStop j))) (mkev t' IStart j') in
+  snd r2 = [] /\ snd (step (fst r2) (mkev t'' (ITun ids) j'')) = [OInit].
+Proof. exact restart_then_traffic_initiates. Qed.
+Print Assumptions C14_restart_then_traffic_initiates.
+
 (* Data received at t on an established session and nothing sent since:
    exactly one keepalive, at t + 10 s. *)
 Theorem C14_keepalive_after_10s_receive_only : forall s k t id j js T fuel,
